@@ -24,6 +24,7 @@ RULE = (
     "non-trivial when it has >= 2 items, an open side, a non-decimal spelling or a separator other than '...'; "
     "distinctness is by hash of (description, kind)."
     "Every description is also constructed with a second (default) parameter, which has no say; quoted limits include control characters and line-separator look-alikes written literally."
+    "Integer probes include +-10^5000."
 )
 ASSUMPTIONS = [
     "items of a description do not overlap (the property's domain)",
